@@ -6,7 +6,7 @@ needs = ' '.join(sys.argv[5:])
 src = '/tmp/mut_%s_out' % wid
 dst = '/verif/seeded/%s' % name
 os.makedirs(dst, exist_ok=True)
-diff = subprocess.run(['git', '-C', '/tmp/mut_%s' % wid, 'diff'], capture_output=True, text=True).stdout
+diff = open(os.path.join(src, 'patch.diff')).read()
 open(os.path.join(dst, 'patch.diff'), 'w').write(diff)
 shutil.copy(os.path.join(src, 'demo.rs'), os.path.join(dst, 'demo.rs'))
 if os.path.exists(os.path.join(src, 'notes.md')):
